@@ -148,7 +148,7 @@ def evs(n, env, events=None):
             return env[lv_slot(inner["a"], env)]
         if inner.get("k") == "un" and inner.get("op") in ("post++", "post--", "pre++", "pre--"):
             return env[lv_slot(inner["e"], env)]
-        if inner.get("k") == "call":
+        if inner.get("k") == "call" and inner.get("fn") not in env.get("$impl", {}):
             return env.get("$ret:%s" % inner.get("fn"), 0)
     n = strip_pre(n)
     if not isinstance(n, dict):
@@ -179,7 +179,19 @@ def evs(n, env, events=None):
     if k == "cast":
         return evs(n["e"], env, events)
     if k == "asg":
-        v = evs(n["b"], env, events)
+        try:
+            v = evs(n["b"], env, events)
+        except Unsupported:
+            # structure assignment: copy every bound field
+            if n["op"] != "=":
+                raise
+            src, dst = lv_slot(n["b"], dict(env, **{"$dyn": True})), lv_slot(n["a"], dict(env, **{"$dyn": True}))
+            fields = [k2 for k2 in env if isinstance(k2, str) and k2.startswith(src + ".")]
+            if not fields:
+                raise
+            for k2 in fields:
+                env[dst + k2[len(src):]] = env[k2]
+            return 0
         nm = lv_slot(n["a"], env)
         op = n["op"]
         if op == "=":
@@ -221,6 +233,11 @@ def evs(n, env, events=None):
                 args.append(None)
         if events is not None:
             events.append((n.get("fn"), args, n.get("l")))
+        impl = env.get("$impl", {}).get(n.get("fn"))
+        if impl is not None:
+            if any(a is None for a in args):
+                raise Unsupported("argument of %s" % n.get("fn"))
+            return impl(*args)
         return env.get("$ret:%s" % n.get("fn"), 0)
     if k == "sizeof":
         return n.get("cv", 0)
